@@ -118,8 +118,17 @@ def gen_registry(rng, ntests, *, empty_groups=False, repeat_groups=False, with_p
                         ffile, fline = tfile, max(0, tline - rng.randint(1, 10)) if tline > 0 else 0   # helper function above
                     else:
                         ffile, fline = text(rng, 14, specials, allow_empty=False), line_no(rng)        # another file
-                    op = "failx" if rng.random() < 0.35 else "fail"
-                    ops.append("%s %s %d %s" % (op, hx(ffile), fline, hx(text(rng, 24, specials))))
+                    kind = rng.random()
+                    if kind < 0.30:
+                        ops.append("failx %s %d %s" % (hx(ffile), fline, hx(text(rng, 24, specials))))
+                    elif kind < 0.62:
+                        ops.append("fail %s %d %s" % (hx(ffile), fline, hx(text(rng, 24, specials))))
+                    elif kind < 0.78:
+                        ops.append("failmsg %s" % hx(text(rng, 24, specials)))          # constructor without a location
+                    elif kind < 0.88:
+                        ops.append("failloc %s %d" % (hx(ffile), fline))                # constructor without a message
+                    else:
+                        ops.append("postfail %s" % hx(text(rng, 24, specials)))         # added by a plugin after the body
                 elif a < 0.6 and with_prints:
                     t = text(rng, 20, specials)
                     for ch in print_avoid:
@@ -157,6 +166,10 @@ def read_registry(ops):
                                      "ignored": w[5] == "ign", "acts": []})
             elif w[0] in ("print", "fail", "failx") and len(w) == 4 and reg["tests"]:
                 reg["tests"][-1]["acts"].append((w[0], unhx(w[1]), int(w[2]), unhx(w[3])))
+            elif w[0] in ("failmsg", "postfail") and len(w) == 2 and reg["tests"]:
+                reg["tests"][-1]["acts"].append((w[0], unhx(w[1])))
+            elif w[0] == "failloc" and len(w) == 3 and reg["tests"]:
+                reg["tests"][-1]["acts"].append((w[0], unhx(w[1]), int(w[2])))
             elif w[0] in ("checks", "tick") and len(w) == 2 and reg["tests"]:
                 reg["tests"][-1]["acts"].append((w[0], int(w[1])))
         except ValueError:
@@ -173,14 +186,35 @@ def should_run(reg, t):
 
 
 def executed(t):
-    """actions of a test that are executed (nothing after a failx; nothing for an ignored shell)"""
+    """actions of a test that are executed (nothing after a failx; nothing for an ignored shell);
+    the plugin's postfail actions are not part of the body"""
     if t["ignored"]:
         return []
     out = []
     for a in t["acts"]:
+        if a[0] == "postfail":
+            continue
         out.append(a)
         if a[0] == "failx":
             break
+    return out
+
+
+def failures(t):
+    """(file, line, message) of every failure a test reports, in order: the body's, then the plugin's.
+    A failure without location is located at the test; one without message says `no message`."""
+    out = []
+    for a in executed(t):
+        if a[0] in ("fail", "failx"):
+            out.append((a[1], a[2], a[3]))
+        elif a[0] == "failmsg":
+            out.append((t["file"], t["line"], a[1]))
+        elif a[0] == "failloc":
+            out.append((a[1], a[2], b"no message"))
+    if not t["ignored"]:
+        for a in t["acts"]:
+            if a[0] == "postfail":
+                out.append((t["file"], t["line"], a[1]))
     return out
 
 
